@@ -22,6 +22,10 @@ func newLegacyCosmosAnteHandlerEip712
                         type_url(typetag("*github.com/cosmos/cosmos-sdk/x/auth/vesting/types.MsgCreateVestingAccount")))
 func newCosmosAnteHandler
     pure as cosmos_handler
+    // the routing closure only inspects the FIRST extension option; every further option of a Cosmos-route transaction is
+    // checked by the SDK's extension-options decorator, which must therefore be part of the chain
+    call ChainAnteDecorators requires ext_options_checked: exists k int :: 0 <= k && k < len(chain)
+            && chain[k] == ext_options_decorator(options.ExtensionOptionChecker)
     call ChainAnteDecorators requires reject_first: len(chain) >= 2
             && typeof(chain[0]) == typetag("github.com/haqq-network/haqq/app/ante/cosmos.RejectMessagesDecorator")
     call ChainAnteDecorators requires authz_second: typeof(chain[1]) == typetag("github.com/haqq-network/haqq/app/ante/cosmos.AuthzLimiterDecorator")
